@@ -274,4 +274,6 @@ def r6_tick_pass(cx):
             if cl[0] == "closure" and cl[1] in m.fns:
                 body_ok = body_ok and not m.fns[cl[1]].returns_result()
     cx.ob("C19.R6", "do_tick:failure-local", body_ok, "a failing timeout rule of one task does not end the pass (no error leaves the per-task body)", f.loc())
-    cx.floor("C19.R6", 3)
+    from rules.common import children_in_selector
+    children_in_selector(cx, "C19.R6", "timeout")
+    cx.floor("C19.R6", 4)
